@@ -291,8 +291,10 @@ def gen_sim(rng):
             acts.append(["decr", w, 1])
         elif r < 0.9:
             acts.append(["die", rng.randrange(8)])
-        else:
+        elif r < 0.95:
             acts.append(["restart_all"])
+        else:
+            acts.append(["restart_pat", rng.choice(["w*", "w?", "W*"])])       # a pattern that matches every watcher
     if rng.random() < 0.5:
         acts.append(["quit"])
     return {"kind": "sim", "sockets": socks, "watchers": ws, "acts": acts}
@@ -1028,6 +1030,8 @@ def _impl_sim(case):
                         n = do(["req", {"command": a, "properties": props}])
                     elif a == "restart_all":
                         n = do(["req", {"command": "restart", "properties": {"waiting": False}}])
+                    elif a == "restart_pat":
+                        n = do(["req", {"command": "restart", "properties": {"name": act[1], "match": "glob", "waiting": False}}])
                     elif a == "die":
                         pids = sorted(p for p, pr in sim.k.procs.items() if pr.state == "r" and pr.ppid == 0)
                         n = len(calls)
@@ -1993,8 +1997,17 @@ def oracle(case, obs):
         _oracle_steps(case, steps, recs_of, fails)
     elif k == "sim":
         steps = []
-        for st in obs["steps"]:
+        quit_seen = False
+        for n, st in enumerate(obs["steps"]):
             closed = any(fd is None for _, fd in st["socks"])
+            quit_seen = quit_seen or st["act"][0] == "quit"
+            if closed and not quit_seen and not st.get("blocked"):
+                # only a shutdown closes the managed sockets: a request that restarts or reloads watchers leaves the
+                # sockets bound at startup open, or no later worker generation can be handed them
+                fails.append(_fail("C07:managed-socket-closed-without-shutdown",
+                                   "step %d (%s): sockets %r are closed although no quit was requested"
+                                   % (n, " ".join(str(x) for x in st["act"]), [nm for nm, fd in st["socks"] if fd is None])))
+                break
             steps.append(dict(st, phase="x" if closed else "r"))
 
         def recs_of(st):
